@@ -11,7 +11,7 @@ import (
 func init() {
 	register(&propInfo{
 		ID:          "C16",
-		Explanation: "Origin and site analysis of reverse calls: (R16.1) the reverse-client builder allocates, inside each invocation, the client object, its request queue and the proxy struct; the queue it makes is what it stores into the connection it was given, the client's exit signal is that connection's exit signal, the proxy it provides is the one placed (under the proxy type's key) into the context it returns, which derives from the context it was given; (R16.2) the builder is invoked only on the WebSocket upgrade path, once per connection, before the connection loop starts, and its context is what the loop runs under; (R16.3) a reverse call fails instead of blocking once the connection is gone: every enqueue watches the exit signal, every loop exit raises it and fails in-flight calls; (R16.4) the client-side handler for reverse calls takes its alias table from the client configuration; (R16.5) handlers run on their own goroutine, so a handler that makes a reverse call (whose response arrives as a later frame on the same connection) cannot deadlock the frame executor. (R16.7) the reverse client's request queue is unbuffered. (R16.8) the frame executor never blocks on something only a finishing handler releases; (R16.9) the accept arm answers reverse calls and notifications picked up while the connection goes away. (R16.10) every client-handler registration is appended.",
+		Explanation: "Origin and site analysis of reverse calls: (R16.1) the reverse-client builder allocates, inside each invocation, the client object, its request queue and the proxy struct; the queue it makes is what it stores into the connection it was given, the client's exit signal is that connection's exit signal, the proxy it provides is the one placed (under the proxy type's key) into the context it returns, which derives from the context it was given; (R16.2) the builder is invoked only on the WebSocket upgrade path, once per connection, before the connection loop starts, and its context is what the loop runs under; (R16.3) a reverse call fails instead of blocking once the connection is gone: every enqueue watches the exit signal, every loop exit raises it and fails in-flight calls; (R16.4) the client-side handler for reverse calls takes its alias table from the client configuration; (R16.5) handlers run on their own goroutine, so a handler that makes a reverse call (whose response arrives as a later frame on the same connection) cannot deadlock the frame executor. (R16.7) the reverse client's request queue is unbuffered. (R16.8) the frame executor never blocks on something only a finishing handler releases; (R16.9) the accept arm answers reverse calls and notifications picked up while the connection goes away. (R16.10) every client-handler registration is appended. (R16.11) an in-flight entry leaves the table only together with a completion, also on the response path. (R16.12) a client-handler alias option records the alias on every path.",
 		NotDecided:  "Affinity under real client populations (follows from per-invocation allocation, not explored), correlation/error/dispatch guarantees of reverse calls (the same client and dispatcher code as forward calls: C02, C09, C11, C12 apply).",
 		Assumptions: []string{"the reverse-client builder is the function literal stored into the server configuration's builder field (type func(context.Context, *conn) (context.Context, error))"},
 		Run:         runC16,
@@ -182,6 +182,8 @@ func runC16(c *Ctx) {
 	c.unbufferedQueue("R16.7")
 	c.rule("R16.10", "every client-handler registration is kept (the option appends on every path; several objects may serve one namespace)")
 	c.handlerRegistrationsKept("R16.10")
+	c.rule("R16.12", "a client-handler alias given as an option is recorded whatever else was configured before it (options may come in any order; the alias table is consulted when a reverse call arrives)")
+	c.aliasOptionUnconditional("R16.12")
 	c.rule("R16.11", "a reverse call pending when its client goes away is failed: an in-flight entry leaves the table only together with a completion, also on the response path")
 	c.inflightRemovalRule("R16.11")
 	c.deliveryRules("R16.11", "R16.11")
@@ -450,5 +452,89 @@ func (c *Ctx) handlerRegistrationsKept(rule string) {
 	}
 	if n == 0 {
 		c.und(rule, "handler registration option", "-", "no option appending a handler record found")
+	}
+}
+
+// aliasOptionUnconditional: R16.12. An option closure that records (alias, original) — two strings
+// captured from the option's constructor — into a string table records them on every path: a
+// return that skips the update (because no handler for that namespace was configured *yet*) makes
+// reverse calls through the alias fail with "method not found" depending on the order of options.
+func (c *Ctx) aliasOptionUnconditional(rule string) {
+	p := c.P
+	n := 0
+	fromParam := func(v ssa.Value) bool {
+		if prm, ok := v.(*ssa.Parameter); ok {
+			return isStringType(prm.Type())
+		}
+		if ld, ok := v.(*ssa.UnOp); ok && ld.Op == token.MUL {
+			v = ld.X
+		}
+		fv, ok := v.(*ssa.FreeVar)
+		if !ok {
+			return false
+		}
+		switch cv := p.canonVar(fv).(type) {
+		case *ssa.Parameter:
+			return isStringType(cv.Type())
+		case *ssa.Alloc:
+			// a captured parameter lives in a cell that the constructor fills from it
+			for _, ref := range *cv.Referrers() {
+				if st, ok := ref.(*ssa.Store); ok && st.Addr == ssa.Value(cv) {
+					if prm, ok := st.Val.(*ssa.Parameter); ok && isStringType(prm.Type()) {
+						return true
+					}
+				}
+			}
+		}
+		return false
+	}
+	everyPath := func(fn *ssa.Function, ev ssa.Instruction) bool {
+		return reachFromEntry(fn, func(x ssa.Instruction) bool { _, ok := x.(*ssa.Return); return ok && x.Parent() == fn }, func(x ssa.Instruction) bool { return x == ev }) == nil
+	}
+	const why = "the alias can be left unrecorded (e.g. when no client handler for that namespace has been configured yet): with the alias option given before the handler option, reverse calls through the alias get 'method not found'"
+	for _, fn := range p.Funcs {
+		if pkgOf(fn) != p.Root.Pkg {
+			continue
+		}
+		var upd *ssa.MapUpdate
+		allInstrsRaw(fn, func(in ssa.Instruction) {
+			mu, ok := in.(*ssa.MapUpdate)
+			if !ok {
+				return
+			}
+			mt, ok := mu.Map.Type().Underlying().(*types.Map)
+			if !ok || !isStringType(mt.Key()) || !isStringType(mt.Elem()) {
+				return
+			}
+			if fromParam(mu.Key) && fromParam(mu.Value) {
+				upd = mu
+			}
+		})
+		if upd == nil {
+			continue
+		}
+		n++
+		c.check(everyPath(fn, upd), rule, fmt.Sprintf("%s: alias recorded", fname(fn)), c.ipos(upd), "on every path", why)
+		// an option (or exported method) that delegates to this setter: the call is made on every path
+		for _, call := range p.syncCallers(fn) {
+			g := call.Parent()
+			if pkgOf(g) != p.Root.Pkg {
+				continue
+			}
+			k := 0
+			for _, a := range call.Common().Args {
+				if fromParam(a) {
+					k++
+				}
+			}
+			if k < 2 {
+				continue
+			}
+			n++
+			c.check(everyPath(g, call), rule, fmt.Sprintf("%s: alias handed to %s", fname(g), fname(fn)), c.ipos(call), "on every path", why)
+		}
+	}
+	if n == 0 {
+		c.und(rule, "alias registration", "-", "no function recording (alias, original) into a string table found")
 	}
 }
